@@ -173,15 +173,17 @@ type Root struct {
 	M  Meth
 	PM *Meth
 
-	MapSS    map[string]string
-	MapSI    map[string]int
-	MapIS    map[int]string
-	MapNamed map[Key]string
-	MapSP    map[string]*Inner // one entry holds a nil pointer
-	NilMap   map[string]string
-	Nested   map[string]interface{}
-	MapAny   map[interface{}]string
-	MapPair  map[[2]interface{}]string
+	MapSS     map[string]string
+	MapSI     map[string]int
+	MapIS     map[int]string
+	MapNamed  map[Key]string
+	MapSP     map[string]*Inner // one entry holds a nil pointer
+	NilMap    map[string]string
+	Nested    map[string]interface{}
+	MapAny    map[interface{}]string
+	MapAnyAny map[interface{}]interface{} // interface keys, interface elements (some hold typed nils)
+	MapArrAny map[[2]string]interface{}
+	MapPair   map[[2]interface{}]string
 
 	Shape    Shaper // holds a Box value
 	ShapeP   Shaper // holds a *PBox
@@ -258,6 +260,8 @@ func (g *Gen) Root() *Root {
 		"null": nil,
 		"s":    g.Tok(),
 	}
+	r.MapAnyAny = map[interface{}]interface{}{"nilp": (*Inner)(nil), "nilm": map[string]int(nil), "nils": []string(nil), "nil": nil, "v": g.Tok(), "zero": 0}
+	r.MapArrAny = map[[2]string]interface{}{{"a", "b"}: (*Inner)(nil), {"c", "d"}: g.Tok()}
 	r.MapAny = map[interface{}]string{"a": g.Tok(), 1.0: g.Tok(), true: g.Tok()}
 	r.MapPair = map[[2]interface{}]string{{"a", 1}: g.Tok()}
 	r.Shape = Box{W: 3, H: 4, Name: g.Tok(), Tags: []string{g.Tok(), g.Tok()}}
@@ -410,7 +414,7 @@ func deref(v reflect.Value) (reflect.Value, bool) {
 }
 
 // Vars gives the values of the VarRefs.
-var Vars = map[VarRef]interface{}{"ix0": 0, "ix1": 1, "ix2": 2, "ix3": 3, "ixm1": -1, "ix9": 9, "kk1": "k1", "kempty": "", "kabsent": "absent", "knamed": Key("nk"), "i64one": int64(1), "u8one": uint8(1), "izero": 0, "kslice": []int{1}, "kstruct": struct{ S []string }{[]string{"x"}},
+var Vars = map[VarRef]interface{}{"ix0": 0, "ix1": 1, "ix2": 2, "ix3": 3, "ixm1": -1, "ix9": 9, "kk1": "k1", "kempty": "", "karr": [2]string{"a", "b"}, "karr2": [2]string{"c", "d"}, "kabsent": "absent", "knamed": Key("nk"), "i64one": int64(1), "u8one": uint8(1), "izero": 0, "kslice": []int{1}, "kstruct": struct{ S []string }{[]string{"x"}},
 	// comparable by static type, unhashable by dynamic value
 	"kdyn":  struct{ ID interface{} }{[]int{7}},
 	"kpair": [2]interface{}{"a", map[string]int{"z": 1}}}
